@@ -134,7 +134,8 @@ func iterCB(i *simdjson.Iter) string {
 
 // parseOpts carries what the op line does not: reuse object and option list, chosen by the harness.
 type parseOpts struct {
-	reuse *simdjson.ParsedJson
+	reuse       *simdjson.ParsedJson
+	defaultOpts bool
 }
 
 var nextParse parseOpts
@@ -195,7 +196,10 @@ func (st *store) exec(line string) (out string) {
 		b := unhx(ws[4])
 		st.inputs[ws[1]] = b
 		var opts []simdjson.ParserOption
-		opts = append(opts, simdjson.WithCopyStrings(ws[3] == "1"))
+		if !(ws[3] == "1" && nextParse.defaultOpts) {
+			// copying is the default: with defaultOpts the option list stays empty
+			opts = append(opts, simdjson.WithCopyStrings(ws[3] == "1"))
+		}
 		var pj *simdjson.ParsedJson
 		var err error
 		reuse := nextParse.reuse
@@ -353,11 +357,19 @@ func (st *store) exec(line string) (out string) {
 		return ivalStr(m)
 	case "parseobj":
 		oc := *objOf(ws[2])
-		es, err := oc.Parse(nil)
+		// an Elements value already stored under this name is passed as destination (reuse)
+		es, err := oc.Parse(st.elems[ws[1]])
 		if err != nil {
 			return "err"
 		}
 		st.elems[ws[1]] = es
+		distinct := map[string]bool{}
+		for _, e := range es.Elements {
+			distinct[e.Name] = true
+		}
+		if len(es.Index) != len(distinct) {
+			return "index-has-stale-keys"
+		}
 		parts := make([]string, len(es.Elements))
 		for i, e := range es.Elements {
 			parts[i] = fmt.Sprintf("%s:%d", hx([]byte(e.Name)), int(e.Type))
